@@ -216,6 +216,20 @@ CHECKS = {
             "Checkpoint positions stand in for crash points; the MPS temperature must come back from "
             "the state_dict; runs that diverge to non-finite parameters are discarded and counted.",
             "DESIGN.md 4/C17"),
+    'C11': ("model-based testing of call histories: breadth-first exploration with abstract-state "
+            "de-duplication on fixed models + Hypothesis call sequences on generated models, "
+            "against a dict model of requires_grad flags and sampler options",
+            "Every call of the trainability / option alphabet is applied to the real model and to a "
+            "dict model; after EVERY call: nas/net parameters partition parameters() (with a "
+            "reference classification by module type and conservation of the user's parameter "
+            "count), requires_grad == dict model, after a training step no gradient on non-"
+            "trainable parameters, frozen maskers bit-identical and gradient-free, sampled "
+            "coefficients of every selector obey the dict model of the options. The exploration of "
+            "the fixed models is complete up to depth 3 (thorough: until closure under "
+            "reachability, states/transitions reported); Hypothesis adds sequences up to 12 calls.",
+            "requires_grad of frozen maskers is exempt (pinned by a baseline test); their "
+            "frozenness is decided behaviourally.",
+            "DESIGN.md 4/C11"),
 }
 
 NOT_YET = "check not built yet in this session; planned with property-based testing per DESIGN.md section 4"
